@@ -336,6 +336,12 @@ def coordinator(check, tier, runs, budget_s, workers, vseed):
             ref_table = scratch
         except Exception as e:  # noqa: BLE001
             harness_errors.append("reference table: %s" % e)
+    # one scratch directory for everything this invocation's workers create; removed at the end
+    # whatever happened to them
+    import tempfile
+    from sim.world import scratch_parent as _sp
+    run_scratch = tempfile.mkdtemp(prefix="cls-", dir=_sp())
+    os.environ["VERIF_SCRATCH"] = run_scratch
     agg = Aggregate()
     violations = []     # (violation, spec, hashseed)
     dead_cases = []     # cases whose worker died twice (reproducibly)
@@ -425,6 +431,9 @@ def coordinator(check, tier, runs, budget_s, workers, vseed):
                    harness_errors, done_runs)
     if scratch and os.path.exists(scratch):
         os.unlink(scratch)
+    os.environ.pop("VERIF_SCRATCH", None)
+    import shutil
+    shutil.rmtree(run_scratch, ignore_errors=True)
     for kid, (k, n) in sorted(known_seen.items()):
         print("KNOWN-FINDING: property=%s %s (%s; seen %d times this run)" % (k["property"], k["what"], kid, n))
     if harness_errors:
